@@ -382,6 +382,10 @@ pub struct Report {
 
 /// Writes evidence, prints VIOLATION / KNOWN-FINDING lines, returns the process exit code.
 pub fn finish(ctx: &RunCtx, rep: Report) -> i32 {
+    let name = ctx.prop.to_string();
+    finish_named(ctx, rep, &name)
+}
+pub fn finish_named(ctx: &RunCtx, rep: Report, file_stem: &str) -> i32 {
     let agg = rep.agg;
     let wall = ctx.started.elapsed().as_secs_f64();
     let mut inconclusive: Vec<String> = agg.inconclusive.clone();
@@ -473,8 +477,8 @@ pub fn finish(ctx: &RunCtx, rep: Report) -> i32 {
     });
     let evdir = format!("{}/evidence", ctx.verif_dir);
     let _ = std::fs::create_dir_all(&evdir);
-    let tmp = format!("{}/{}.json.tmp", evdir, ctx.prop);
-    let fin = format!("{}/{}.json", evdir, ctx.prop);
+    let tmp = format!("{}/{}.json.tmp", evdir, file_stem);
+    let fin = format!("{}/{}.json", evdir, file_stem);
     std::fs::write(&tmp, serde_json::to_string_pretty(&ev).unwrap()).expect("write evidence");
     std::fs::rename(&tmp, &fin).expect("rename evidence");
 
